@@ -1,1 +1,26 @@
-//! verif hook (child module): see /verif/hooks/verif.rs
+//! verif hook (child module of `try_join_all`)
+use super::*;
+
+impl<F: TryFuture> TryJoinAll<F> {
+    pub fn verif_from_parts(
+        queue: FuturesUnorderedBounded<F>,
+        n: usize,
+        mut written: impl FnMut(usize) -> Option<F::Ok>,
+    ) -> Self {
+        let mut output = Vec::with_capacity(n);
+        output.resize_with(n, MaybeUninit::uninit);
+        let mut output = output.into_boxed_slice();
+        for i in 0..n {
+            if let Some(x) = written(i) {
+                output[i].write(x);
+            }
+        }
+        Self { queue, output }
+    }
+    pub fn verif_queue(&mut self) -> &mut FuturesUnorderedBounded<F> {
+        &mut self.queue
+    }
+    pub fn verif_output_len(&self) -> usize {
+        self.output.len()
+    }
+}
